@@ -168,10 +168,26 @@ func (core *JApiCore) processEOF() *jerr.JApiError {
 	if je := core.processCurrentDirective(); je != nil {
 		return je
 	}
-	if core.HasUnclosedExplicitContext() {
+	if core.hasUnclosedExplicitContextAtEOF() {
 		return core.japiError(jerr.ContextNotClosed, core.scanner.CurrentIndex()-1)
 	}
 	return nil
+}
+
+// hasUnclosedExplicitContextAtEOF tells if the file which just ended leaves an
+// opening parenthesis without its pair. At the end of an included file only the
+// parentheses opened in that file count: the including file closes its own ones
+// after the INCLUDE directive.
+func (core *JApiCore) hasUnclosedExplicitContextAtEOF() bool {
+	if core.scannersStack.Empty() {
+		return core.HasUnclosedExplicitContext()
+	}
+	for d := core.currentContextDirective; d != nil; d = d.Parent {
+		if d.HasExplicitContext && d.KeywordFile() == core.scanner.File() {
+			return true
+		}
+	}
+	return false
 }
 
 func (core *JApiCore) setCurrentDirective(keyword string, keywordCoords directive.Coords) *jerr.JApiError {
